@@ -34,6 +34,12 @@ impl Map for OVMap {
     }
 }
 
+pub const POISON_MARK: &str = "\u{1}poison\u{1}";
+thread_local! {
+    /// set by the harness while it encodes a value it was handed inside a report (never while deserr runs)
+    pub static ENCODING: std::cell::Cell<bool> = const { std::cell::Cell::new(false) };
+}
+
 impl IntoValue for OV {
     type Sequence = Vec<OV>;
     type Map = OVMap;
@@ -52,6 +58,8 @@ impl IntoValue for OV {
     }
     fn into_value(self) -> Value<Self> {
         match self {
+            // while the harness itself encodes the `actual` value of a report, a poisoned member is only named, not judged
+            OV::Poison if ENCODING.with(|c| c.get()) => Value::String(POISON_MARK.to_string()),
             OV::Poison => panic!("the value of an ignored member was converted"),
             OV::Null => Value::Null,
             OV::Bool(b) => Value::Boolean(b),
